@@ -38,16 +38,36 @@ Theorem C16_contexts_are_preorder_with_positional_flags : forall f : forest,
 Proof. exact (fun f => conj (ctxs_nodes_l f []) (ctxs_ok f)). Qed.
 Print Assumptions C16_contexts_are_preorder_with_positional_flags.
 
-(* ... and these positional flags are what the Python loop computes with
-   identity tests: when node identities are unique (C01), every printer
-   context is a structural context of the relationship-query model (C10) of
-   the same node, the ancestors' flags are [q_is_last] of each ancestor in
-   its own context in get_parent_list() order, own flag = [q_is_last],
-   has-children = [q_has_children], number of flags = depth - 1. *)
+(* ... and these positional flags are what the Python loop
+
+       for p in self.get_parent_list(): ... _is_last(p) ...;  _is_last(self);  bool(self._children)
+       _is_last(p) = p is p._parent._children[-1]
+
+   computes with identity tests.  In terms of the functions of the
+   relationship-query model (C10) only: when node identities are unique
+   (C01), for every printer context c the query model locates the node
+   ([locate_f]), and the ancestors' flags are [q_is_last] of the LOCATED
+   context of every member of get_parent_list() in that order, the own flag is
+   [q_is_last], has-children is [q_has_children], number of flags = depth - 1. *)
 Theorem C16_flags_are_the_identity_tests_of_the_code : forall f : forest,
+  NoDup (ids f) ->
+  Forall (fun c => exists nc,
+            locate_f (rid (n_node c)) f = Some nc
+            /\ c_self nc = n_node c
+            /\ n_anc c = map (is_last_located f) (q_parent_list nc false false)
+            /\ n_last c = q_is_last nc
+            /\ has_ch (n_node c) = q_has_children nc
+            /\ q_depth nc = S (length (n_anc c)))
+         (ctxs_l [] f).
+Proof. exact ctxs_located. Qed.
+Print Assumptions C16_flags_are_the_identity_tests_of_the_code.
+
+(* the same relationally: the context is a structural context ([ctx_ok]) and
+   the flags are [q_is_last] along the descent ([npath]) *)
+Theorem C16_flags_along_the_descent : forall f : forest,
   NoDup (ids f) -> Forall (nav_agrees f) (ctxs_l [] f).
 Proof. exact ctxs_nav_agree. Qed.
-Print Assumptions C16_flags_are_the_identity_tests_of_the_code.
+Print Assumptions C16_flags_along_the_descent.
 
 (* Node._get_prefix (the Python loop with its [depth]/[lstrip] counters) in
    closed form: nothing for a node above the cut, otherwise the segments of
